@@ -223,11 +223,15 @@ package fiber
 //@   atcall (*DefaultCtx).MultipartForm: on-the-bound-context: c == r.ctx && liveCtx(c)
 //@   ensures forwards-to-MultipartForm: called((*DefaultCtx).MultipartForm)
 //@   ensures returns-its-results: result0 == last((*DefaultCtx).MultipartForm_0) && result1 == last((*DefaultCtx).MultipartForm_1)
+// (frame and the two carried clauses: an override never writes the path buffer held at entry - see (*DefaultCtx).Path)
 //@ func (*DefaultReq).Path
 //@   safety nil
-//@   modifies r.ctx.pathOriginal, r.ctx.path, r.ctx.detectionPath, r.ctx.treePathHash, elems(r.ctx.path), elems(r.ctx.detectionPath), r.ctx.indexRoute
+//@   modifies r.ctx.pathOriginal, r.ctx.path, r.ctx.detectionPath, r.ctx.treePathHash, elems(r.ctx.detectionPath), r.ctx.indexRoute
 //@   requires bound-helper: boundHelper(r)
 //@   requires ctx-wf: len(override) != 0 ==> ctxWF(r.ctx)
+//@   requires buffers-allocated: len(override) != 0 ==> buffersAllocated(r.ctx)
+//@   ensures [C06] held-path-views-keep-their-content-until-the-handler-returns: str(old(r.ctx.path)) == old(str(r.ctx.path))
+//@   ensures [C02] params-captured-before-an-override-keep-their-values: str(old(r.ctx.path)) == old(str(r.ctx.path)) && forall(k, 0, maxParams, r.ctx.values[k] == old(r.ctx.values[k]))
 //@   atcall (*DefaultCtx).Path: on-the-bound-context: c == r.ctx && liveCtx(c)
 //@   atcall (*DefaultCtx).Path: same-arguments: override == old(override)
 //@   ensures forwards-to-Path: called((*DefaultCtx).Path)
